@@ -76,6 +76,11 @@ protected:
   /// Version 2: add a range of links
   void RegisterLinkIndexRange(LinkIndexRange );
 
+  /// Whether entry \a i of this link is the very last entry
+  /// registered with the ValuePresolver, i.e., no entry of any
+  /// link has been registered after it
+  bool IsLastRegisteredLinkIndex(int i) const;
+
 
 private:
   ValuePresolver& value_presolver_;
@@ -135,7 +140,12 @@ public:
   /// Instead of a new entry, tries to extend the last one
   /// if exists
   void AddEntry(LinkEntry be) {
+    /// Only extend the last entry while it is the last one
+    /// in the presolver's global link order. Otherwise the new pair
+    /// would be processed before links registered in between,
+    /// which may define the new source's values (names, etc.)
     if (entries_.empty() ||
+        !IsLastRegisteredLinkIndex((int)entries_.size()-1) ||
         !entries_.back().first.ExtendableBy(be.first) ||
         !entries_.back().second.ExtendableBy(be.second)) {
       entries_.push_back(be);             // Add new entry
